@@ -1125,6 +1125,12 @@ class SpectrumResult:
 
     def __getattr__(self, name: str) -> Any:
         """Lazy computation and caching of spectral properties."""
+        if name.startswith("_"):
+            # Private state (e.g. `_cache` before __init__ has run, as during
+            # copy/unpickle) is never a lazy attribute; avoid infinite recursion.
+            raise AttributeError(
+                f"'{type(self).__name__}' object has no attribute '{name}'"
+            )
         if name in self._cache:
             return self._cache[name]
 
